@@ -675,7 +675,7 @@ TR_CORPUS = [
     {"unit": "transform", "card": "tr5 1 2j 9j", "ops": [["deg", True], ["format"]]},
     {"unit": "transform", "card": "*tr5 j 2 j 3j 45 5j -1",
      "ops": [["disp", [nf.num(v) for v in (0.0, 0.0, 2.5)]], ["rot", [nf.num(v) for v in (0.0, 90.0, 90.0, 90.0, 45.0, 45.0, 90.0, 135.0, 45.0)]], ["format"]]},
-    # fixed da24dfa: a write drops the jumps at the end of the input; the displacement entries that were left off
+    # fixed eb991ca: a write drops the jumps at the end of the input; the displacement entries that were left off
     # have to come back when they, or a rotation behind them, are needed
     {"unit": "transform", "card": "*tr1 8j",
      "ops": [["disp", [nf.num(v) for v in (1.0, 0.0, 0.0)]], ["format"], ["deg", True], ["format"]]},
